@@ -188,7 +188,21 @@ func ruleC16TeardownWaits(c *Ctx) {
 		c.unresolved("Remove", "(*sharedEncryption).Remove")
 		return
 	}
-	isHeld := func(v ssa.Value) bool {
+	var isHeld func(v ssa.Value) bool
+	isHeld = func(v ssa.Value) bool {
+		// a predicate method of the wrapper whose every return is such a test
+		if cv, isCall := v.(*ssa.Call); isCall {
+			if h := staticCallee(cv); h != nil && h.Blocks != nil && h.Signature.Recv() != nil && typeIsNamed(h.Signature.Recv().Type(), pkgApp, "sharedEncryption") {
+				rets := returnsOf(h)
+				for _, r := range rets {
+					if len(r.Results) != 1 || !isHeld(resolve(returnedValue(r, 0))) {
+						return false
+					}
+				}
+				return len(rets) > 0
+			}
+			return false
+		}
 		b, ok := v.(*ssa.BinOp)
 		if !ok || b.Op != token.GTR {
 			return false
@@ -331,6 +345,54 @@ func ruleC16SingleTeardownPath(c *Ctx) {
 	}
 }
 
+// ensuresSharedEncryption: every path from h's entry to a return takes the "already a *sharedEncryption" edge of a type
+// assertion or injects / stores a sharedEncryption literal carrying mu, cond and the original.
+func ensuresSharedEncryption(u *Universe, h *ssa.Function, inject *ssa.Function) bool {
+	takesSession := false
+	for _, p := range h.Params {
+		if pt, ok := p.Type().Underlying().(*types.Pointer); ok && typeIsNamed(pt.Elem(), pkgApp, "Session") {
+			takesSession = true
+		}
+	}
+	if !takesSession {
+		return false
+	}
+	found, _ := pathSearchAt(h.Blocks[0], 0, func(i ssa.Instruction) pathAction {
+		if inject != nil && staticCallee(i) == inject {
+			if a, _ := litOf(callOf(i).Args[1]); a != nil && typeIsNamed(a.Type(), pkgApp, "sharedEncryption") {
+				fl := litFields(a)
+				_, h1 := fl["mu"]
+				_, h2 := fl["cond"]
+				_, h3 := fl["Encryption"]
+				if h1 && h2 && h3 {
+					return pathStop
+				}
+			}
+		}
+		if st, ok := i.(*ssa.Store); ok {
+			if _, fld, isF := fieldAccess(st.Addr); isF && fld == "encryption" {
+				if a, _ := litOf(st.Val); a != nil && typeIsNamed(a.Type(), pkgApp, "sharedEncryption") {
+					return pathStop
+				}
+			}
+		}
+		if isReturn(i) {
+			return pathFound
+		}
+		return pathContinue
+	}, func(from, to *ssa.BasicBlock) bool {
+		for _, fct := range edgeFacts(from, to) {
+			if ex, ok := strip(fct.V).(*ssa.Extract); ok && ex.Index == 1 && fct.True {
+				if ta, isTA := ex.Tuple.(*ssa.TypeAssert); isTA && strings.HasSuffix(ta.AssertedType.String(), "sharedEncryption") {
+					return false
+				}
+			}
+		}
+		return true
+	})
+	return !found
+}
+
 func ruleC16SharedWrapper(c *Ctx) {
 	u := c.U1
 	c.rule("C16.shared-wrapper", "the loader installed by newSessionCacheWithCache returns, with a nil error, only sessions whose encryption is a *sharedEncryption (already one, or injected on that path); getOrAdd caches exactly what the loader returned", 2)
@@ -366,6 +428,10 @@ func ruleC16SharedWrapper(c *Ctx) {
 						return pathStop
 					}
 				}
+			}
+			// a helper of the package that wraps (or finds wrapped) on every path to its returns
+			if h := staticCallee(i); h != nil && h != inject && h.Blocks != nil && h.Pkg != nil && h.Pkg.Pkg.Path() == pkgApp && ensuresSharedEncryption(u, h, inject) {
+				return pathStop
 			}
 			if i == ssa.Instruction(r) {
 				return pathFound
